@@ -143,6 +143,29 @@ func (x *c18) exercise(p gmsl.PDU, w *world, tag string) {
 			_, _ = impl.RedactEventJSON(p.JSON())
 		}
 	})
+	// redacted in place (on a copy: the event itself goes on into the auth checks below), then asked again - the room
+	// ID first, which room version 12 derives from the event ID (ninth seeding round, C18-R: the redacted event had
+	// lost the cached ID)
+	x.step(tag+":Redact", func() {
+		impl, err := gmsl.GetRoomVersion(p.Version())
+		if err != nil {
+			return
+		}
+		q, err := impl.NewEventFromUntrustedJSON(p.JSON())
+		if q == nil || (err != nil && !isPersistable(err)) {
+			return
+		}
+		q.Redact()
+		_ = q.RoomID()
+		_ = q.EventID()
+		_ = q.JSON()
+		_ = q.Content()
+		_ = q.AuthEventIDs()
+		q.Redact()
+		_ = q.RoomID()
+		_, _ = q.Membership()
+		_, _ = q.PowerLevels()
+	})
 	// as the event under an auth check, against a standard room state and against nothing
 	std := []gmsl.PDU{w.create, w.pls[0], w.jrs["public"], w.jrs["restricted"], w.tpi}
 	for _, u := range authUsers {
